@@ -133,13 +133,13 @@ Definition norm_list (v : val) : option (list string) :=
   match v with VL l => Some l | VTL l => all_some l | VNone => Some [] | _ => None end.
 
 (* crdt trusted_peers: the scan stops at the first "*" (TrustAll, rendered ["*"]); an undecodable ID before it is an error *)
+Definition is_star_list (q : list string) : bool := match q with [x] => String.eqb x "*" | _ => false end.
 Fixpoint star_scan (l : list (option string)) : option (list string) :=
   match l with
   | [] => Some []
   | Some p :: r => if String.eqb p "*" then Some ["*"]
                    else match star_scan r with
-                        | Some ["*"] => Some ["*"]
-                        | Some q => Some (p :: q)
+                        | Some q => if is_star_list q then Some ["*"] else Some (p :: q)
                         | None => None end
   | None :: _ => None end.
 Definition as_tl (v : val) : option (list (option string)) :=
@@ -187,6 +187,7 @@ Fixpoint apply_rule (r : lrule) (k : kind) (pp : string -> bool) (cur v : val) :
   end.
 
 Definition memNb (x : N) (l : list N) : bool := existsb (N.eqb x) l.
+Definition is_bad (v : val) : bool := match v with VBad => true | _ => false end.
 
 (* the discarded-error ParseDurations group: once one member is malformed the later ones are not looked at *)
 Definition soft_group (r : lrule) : option N := match r with LDurSoft g => Some g | _ => None end.
@@ -199,12 +200,10 @@ Fixpoint apply_fields (fs : list field) (base : cfg) (j : json) (ab : list N) : 
       match soft_group (fload f) with
       | Some g =>
           if memNb g ab then option_map (cons cur) (apply_fields r br j ab)
-          else match v with
-               | VBad => option_map (cons cur) (apply_fields r br j (g :: ab))
-               | _ => match apply_rule (fload f) (fkind f) (fun p => jhas p j) cur v with
-                      | Some x => option_map (cons x) (apply_fields r br j ab)
-                      | None => None end
-               end
+          else if is_bad v then option_map (cons cur) (apply_fields r br j (g :: ab))
+          else match apply_rule (fload f) (fkind f) (fun p => jhas p j) cur v with
+               | Some x => option_map (cons x) (apply_fields r br j ab)
+               | None => None end
       | None =>
           match apply_rule (fload f) (fkind f) (fun p => jhas p j) cur v with
           | Some x => option_map (cons x) (apply_fields r br j ab)
@@ -272,3 +271,105 @@ Fixpoint override (j env : json) : json :=
   match env with [] => j | (k, v) :: r => (k, v) :: override j r end.
 Definition apply_env (S : schema) (V : validator) (orc : string -> bool) (c : cfg) (env : json) : option cfg :=
   apply_json S V orc c (override (save S c) env).
+
+(* ------------------------------------------------------------------------------------------------
+   Well-formed documents, settings, and the table obligations (boolean, evaluated on the generated tables)
+   ------------------------------------------------------------------------------------------------ *)
+Definition wf_val (v : val) : bool :=
+  match v with
+  | VBad | VWrong => false
+  | VTL l => forallb (fun o => match o with Some _ => true | None => false end) l
+  | _ => true end.
+(* every member the section knows holds a well-formed value of its type *)
+Definition wf_doc (S : schema) (j : json) : bool :=
+  forallb (fun f => wf_val (jval (fname f) j) && well_typed (fkind f) (jval (fname f) j)) (sfields S).
+
+Definition is_custom (r : lrule) : bool := match r with LCustom _ => true | _ => false end.
+Definition is_never_s (r : srule) : bool := match r with SNever => true | _ => false end.
+Definition parent_of (r : lrule) : option string := match r with LIfParent p _ _ => Some p | _ => None end.
+Definition is_boolk (k : kind) : bool := match k with KBool => true | _ => false end.
+Definition is_groupk (k : kind) : bool := match k with KGroup => true | _ => false end.
+Definition canon_in (v : val) : val := match v with VTL l => VL (keep_some l) | _ => v end.
+
+(* a setting given by a document: a member the section saves (not hand-transcribed), bound to a boolean or to a non-zero
+   value ("a numeric or duration zero conventionally means use the default"), its enclosing object being present *)
+Definition is_setting (f : field) (j : json) : bool :=
+  let v := jval (fname f) j in
+  negb (is_never_s (fsave f)) && negb (is_custom (fload f)) && negb (is_groupk (fkind f))
+  && (match v with VNone => false | _ => true end)
+  && (is_boolk (fkind f) || negb (is_zero (canon_in v)))
+  && (match parent_of (fload f) with Some p => jhas p j | None => true end).
+
+Definition kind_in (k : kind) (l : list kind) : bool :=
+  existsb (fun x => match k, x with
+                    | KBool, KBool | KInt, KInt | KFloat, KFloat | KStr, KStr | KDur, KDur | KTok, KTok
+                    | KList, KList | KMap, KMap | KGroup, KGroup => true | _, _ => false end) l.
+
+Definition custom_ok (id : string) (k : kind) : bool :=
+  (String.eqb id "crdt.trusted_peers" && kind_in k [KList])
+  || ((String.eqb id "restapi.ssl_cert_file" || String.eqb id "restapi.ssl_key_file") && kind_in k [KStr]).
+
+(* which (load rule, save rule) pairs keep a loaded value through save and load, and under which side conditions *)
+Definition field_ok (f : field) : bool :=
+  let k := fkind f in
+  cfg_typed k (fdef f) &&
+  match fload f, fsave f with
+  | LNever, SNever => true
+  | LGroup, SGroup => kind_in k [KGroup]
+  | LAlways, SAlways => kind_in k [KBool; KInt; KFloat; KStr; KList] || (kind_in k [KMap] && negb (fomit f))
+  | (LIfNonZero | LMergeNonZero), SAlways =>
+      kind_in k [KInt; KFloat; KStr; KList] || (kind_in k [KBool] && val_eqb (fdef f) (VB false))
+  | (LIfNonZero | LMergeNonZero), SOmitIfDefault d => kind_in k [KInt; KFloat; KStr] && val_eqb d (fdef f)
+  | LPtrIfNonNil, SAlways => kind_in k [KBool; KInt; KFloat] && negb (fomit f)
+  | (LDurIfNonEmpty | LDurIgnoreErr | LDurSoft _ | LDurZeroOnErr | LDurEmptyZero), SAlways => kind_in k [KDur]
+  | (LDurIfNonEmpty | LDurSoft _), SOmitIfDefault d => kind_in k [KDur] && val_eqb d (fdef f)
+  | (LParseAlways _ | LParseIfNonEmpty), SAlways => kind_in k [KTok]
+  | (LParseListAlways | LParseListIfNonEmpty | LParseListSkipBad), SAlways => kind_in k [KList]
+  | LEnum _, SAlways => kind_in k [KStr] && negb (fomit f)
+  | LIfParent _ LAlways _, SAlways => kind_in k [KBool; KInt; KFloat; KStr] && negb (fomit f)
+  | LIfParent _ LDurIfNonEmpty r, SAlways => kind_in k [KDur] && cfg_typed k r
+  | LCustom id, (SAlways | SCustom _) => custom_ok id k
+  | _, _ => false
+  end.
+
+Fixpoint nodup_strs (l : list string) : bool :=
+  match l with [] => true | x :: r => negb (existsb (String.eqb x) r) && nodup_strs r end.
+
+Definition is_group_field (g : field) : bool :=
+  match fload g, fsave g with LGroup, SGroup => true | _, _ => false end.
+Definition parent_ok (fs : list field) (f : field) : bool :=
+  match parent_of (fload f) with
+  | Some p => existsb (fun g => String.eqb (fname g) p && is_group_field g) fs
+  | None => true end.
+
+(* members that carry the cluster secret, private keys or API credentials *)
+Definition secret_names : list string := ["secret"; "private_key"; "basic_auth_credentials"].
+Definition last_segment_is (n s : string) : bool :=
+  String.eqb n s || (let suffix := String.append "." s in
+                     let ln := String.length n in let ls := String.length suffix in
+                     (ls <=? ln)%nat && String.eqb (substring (ln - ls) ls n) suffix).
+Definition secret_tagged (f : field) : bool :=
+  negb (existsb (last_segment_is (fname f)) secret_names) || (fhidden f && top_level (fname f)).
+Definition same_member (f : field) : bool :=
+  String.eqb (fcfg_l f) "" || String.eqb (fcfg_s f) "" || String.eqb (fcfg_l f) (fcfg_s f).
+
+Definition schema_coherentb (S : schema) : bool :=
+  let fs := sfields S in
+  nodup_strs (map fname fs) && forallb field_ok fs && forallb (parent_ok fs) fs
+  && forallb (fun f => negb (fhidden f) || top_level (fname f)) fs
+  && forallb secret_tagged fs && forallb same_member fs && svalidates S.
+
+(* diagnosis: the offending members, with the obligation they break *)
+Definition sapp (a b : string) : string := String.append a b.
+Definition field_diag (fs : list field) (f : field) : list string :=
+  app (if field_ok f then [] else [sapp "rule-pair-or-default: " (fname f)])
+ (app (if parent_ok fs f then [] else [sapp "parent: " (fname f)])
+ (app (if negb (fhidden f) || top_level (fname f) then [] else [sapp "hidden-not-top-level: " (fname f)])
+ (app (if secret_tagged f then [] else [sapp "secret-not-hidden: " (fname f)])
+      (if same_member f then [] else [sapp "different-config-member: " (fname f)])))).
+Definition schema_diag (S : schema) : list string :=
+  let fs := sfields S in
+  map (fun s => sapp (sname S) (sapp ": " s))
+    (app (if nodup_strs (map fname fs) then [] else ["duplicate-json-name"])
+    (app (flat_map (field_diag fs) fs)
+         (if svalidates S then [] else ["apply-does-not-end-in-Validate"]))).
